@@ -33,10 +33,6 @@ CHECKS = {
                      "(<= n+3 inputs, unconstrained magnitude) then a suffix returns exactly the output of a fresh instance fed the suffix only, n<=4 (5); too-short suffixes must be able "
                      "to differ (witness); violations replayed natively with the property's tolerance.",
                 technique="symbolic execution of rustc MIR into z3, two instances with different ring rotation compared; native replay", design='4/C17'),
-    'C04': dict(text="Bounded model checking by solver: for all 22 indicators, periods n<=3 (4): symbolic history (<= n+2 inputs), reset (also double reset, reset on fresh, two histories), then a "
-                     "symbolic continuation of n+2 inputs on the reset instance and on a fresh one: outputs pairwise equal, period()/multiplier() unchanged; violations replayed natively. "
-                     "Non-finite histories are covered by the Kani harnesses where registered.",
-                technique="symbolic execution of rustc MIR into z3 (reset/next/new of the real code), native replay", design='4/C04'),
     'C16': dict(text="Bounded model checking by CBMC on the compiled crate: a symbolic script of up to 7 (9) setter calls (which setter and which value symbolic, every f64 bit pattern incl. NaN/inf/-0.0) "
                      "followed by build(), against a last-value-per-field model: Incomplete iff a field never set, else Invalid iff the six comparisons fail, else Ok with bit-exact getters and an equal clone; "
                      "plus all five setters in any symbolic order. Counterexamples are decoded from concrete playback and replayed natively (dev and release).",
@@ -48,6 +44,17 @@ CHECKS = {
                      "Counterexamples are decoded from concrete playback and replayed natively.",
                 technique="Kani/CBMC proof harnesses over kani::any() inputs, unwinding assertions on, native replay of counterexamples", design='4/C12', engine='kani',
                 note="Trusted base: Kani 0.68 / CBMC 6.11; stubs listed per family in the evidence (f64::sqrt -> arbitrary value for SD/BB; EMA::next -> arbitrary value inside CE/SlowStochastic)."),
+    'C06': dict(text="Bounded model checking by CBMC of the serde-derived Serialize/Deserialize impls of /repo, driven through a minimal non-self-describing token format (bincode's shape "
+                     "without byte buffers; bincode itself does not finish in CBMC): for 20 indicators (quick; CE and SlowStochastic only in the thorough tier, not required), n=2 (1..3): checkpoints fresh / full "
+                     "window after a wrap / just reset; serialize(deserialize(x)) == serialize(x) for histories of EVERY f64 bit pattern; future outputs of the restored instance bit-equal to the original's "
+                     "over n+2 inputs after histories that are symbolic over a 4-value alphabet incl. 1e16 and a non-finite value (add/compare-only indicators) or concrete (the rest); DataItem round trip for every "
+                     "accepted bar. Counterexamples are confirmed natively with the real bincode 1.3.",
+                technique="Kani/CBMC proof harnesses over the derived serde impls (token-stream format), native confirmation with bincode", design='4/C06', engine='kani',
+                note="Trusted base: Kani 0.68 / CBMC 6.11; the token format stands in for bincode inside CBMC only; the native replay uses real bincode."),
+    'C04': dict(text="Bounded model checking by solver: for all 22 indicators, periods n<=3 (4): symbolic history (<= n+2 inputs), reset (also double reset, reset on fresh, two histories), then a "
+                     "symbolic continuation of n+2 inputs on the reset instance and on a fresh one: outputs pairwise equal, period()/multiplier() unchanged (z3 over the MIR, exact reals); plus Kani harnesses "
+                     "with histories of EVERY f64 bit pattern (NaN, +-inf, extremes), reset, then a fixed finite continuation bit-equal to a fresh instance, n<=2 (3). Violations replayed natively.",
+                technique="symbolic execution of rustc MIR into z3 + Kani/CBMC harnesses for non-finite histories; native replay", design='4/C04'),
 }
 NA = {
     'C19': "decided by rustc's type checker once and for all; there is no input, state or schedule for an SMT/SAT solver to quantify over",
